@@ -215,7 +215,13 @@ def model_frame(u: Unit):
             u.functions.setdefault(fn.qualname, {"sha": fn.sha, "file_sha": mi.sha, "paths": 0, "obligations": 0, "role": "under contract"})
             sites = draw_sites(u.world, fn)
             bad = [s for s, g in sites if not g]
-            withs = [w for w in ast.walk(fn.node) if isinstance(w, ast.With) and any(ast.unparse(it.context_expr).replace(" ", "") in ("set_random_seed(seed)", "set_random_seed(seed=seed)") for it in w.items)]
+            def seeds_with_param(it):
+                c = it.context_expr
+                if not (isinstance(c, ast.Call) and ast.unparse(c.func).split(".")[-1] == "set_random_seed"):
+                    return False
+                arg = c.args[0] if c.args else next((k.value for k in c.keywords if k.arg == "seed"), None)
+                return arg is not None and DU.norm(fn.node, arg) == "seed"          # the model's own `seed` parameter, through locals
+            withs = [w for w in ast.walk(fn.node) if isinstance(w, ast.With) and any(seeds_with_param(it) for it in w.items)]
             u.static(f"model.frame[{fn.name}]", not bad and len(withs) >= 1, fn.qualname,
                      f"{len(sites)} global draws, unguarded: {bad}; `with set_random_seed(seed)` blocks: {len(withs)}", witness={"function": fn.name, "unguarded": bad},
                      replay=lambda w, mod=mi.name, name=fn.name: {"code": f"""
